@@ -92,6 +92,98 @@ CLAIMS["C05"] = dict(
          "shrink (c*(1+0.1*pi/2)<1); the error fed to the controller is h*sum(b-b_hat)k. NOT decided (not applicable to static analysis): that the "
          "global error is proportional to the tolerances.")
 
+CLAIMS["C06"] = dict(
+    category="other", design="DESIGN.md 4/C06",
+    technique="argument-slot agreement by polynomial normal forms; dependence rule (piece index must depend on a direction indicator); cache-key discipline; "
+              "paired/sorted container rules; balance abstract interpretation of integrate() incl. exceptional edges",
+    text="Decides the structural clauses of C06: each Hermite piece is built from (t0, t0+dTime, y0, y0+dState, f(t0,y0), f(t1,y1)) of its own step in the slots "
+         "the class expects; the end slopes are the right-hand side at the step ends in both integrator families; the piece chosen for a query depends on the "
+         "direction of the stored steps (necessary by an information argument: t_eval alone cannot tell which neighbour contains t); a cached end slope is reused "
+         "only under a comparison with the time AND state it was computed at and the splitting integrators recompute it every call; t_eval/y_interpolants are "
+         "updated in lock-step; on every path of integrate(), including exceptional exits and the terminal-event path, pieces added = steps committed. "
+         "A front insertion decided by comparison with the LAST element is a recorded known finding (direction reversal). Not decided: O(h^4) interpolation error.")
+CLAIMS["C07"] = dict(
+    category="other", design="DESIGN.md 4/C07",
+    technique="def-use of the event record; index-sort (IDX) typing of last_occurrence; exhaustive truth tables of the classification and direction mask; quantity kinds of the ordering key",
+    text="Decides: the record of an event is (root, dense solution at that root, the event of that root) from one zip iteration and is appended only after the "
+         "in-step test; the duplicate-suppression table is indexed by EVENT index (positions among active events are mapped through active_events); up/down over "
+         "all 27 sign patterns of the three samples and the direction mask over (up, down, direction in {-1,0,1}) equal their specifications and imply the root "
+         "finder's success; events are ordered by sign(dt)*t; the in-step test is the mirrored pair selected by the sign of the step. Not decided: g(t_e,y_e)~0 and "
+         "closeness to a true root.")
+CLAIMS["C08"] = dict(
+    category="other", design="DESIGN.md 4/C08",
+    technique="unit (DIM) kind checking of the vectorised Brent solver; ordering/dominance and def-use rules of the event search in integrate()/handle_events",
+    text="Decides: whether the root search reports success is invariant under rescaling of the event function (no function value is ordered against an abscissa "
+         "tolerance); the bracket handed to the root finder is (start, end) of the step just committed, read after the commit and before the rollback; a search "
+         "function is built for every event and evaluated at (t, sol(t)); the interpolant of the step is in the solution before the search and pruning happens only "
+         "after it. The design's 'keep the most recent pieces in either direction' clause was withdrawn as a false alarm (see DESIGN.md). Not decided: convergence "
+         "of Brent's iteration on a given steep function.")
+CLAIMS["C09"] = dict(
+    category="other", design="DESIGN.md 4/C09",
+    technique="ordering/dominance rules on handle_events; protocol rules on the terminal branch; balance abstract interpretation (fixpoint over the step loop, recursion by induction)",
+    text="Decides: ordering along the direction of integration precedes the terminal truncation, which keeps [: first terminal + 1] of the three parallel arrays; on "
+         "a terminal event integrate() has rolled the step back, re-integrates to the LAST kept root with neither events nor callbacks, sets status 2 after the "
+         "recursive call, leaves the loop and writes no row afterwards; at the end of every iteration, on the terminal path in particular, interpolant pieces "
+         "added = counter advance. Not decided: that the last state lies on the event surface (numeric).")
+CLAIMS["C12"] = dict(
+    category="other", design="DESIGN.md 4/C12",
+    technique="handler-discipline rules on the try statement; lexical containment of user-reaching calls; balance abstract interpretation with exceptional edges from every such call",
+    text="Decides for every crash point that is a call reaching user code (integrator, event functions, callbacks, recursive integrate): the call lies inside the "
+         "try; a KeyboardInterrupt handler, not shadowed by a broader one, records and re-raises the interrupt; an Exception handler raises FailedIntegration whose "
+         "__cause__ is the original; rows are written only after the integrator returned with nothing raising between the writes and the counter increment; at each "
+         "exceptional exit pieces added = counter advance; finally trims both buffers to counter+1. Asynchronous interrupts between bytecodes and the numerical "
+         "correctness of a resumed run are not decided.")
+CLAIMS["C13"] = dict(
+    category="other", design="DESIGN.md 4/C13",
+    technique="transitive attribute write sets over the class call graph (setters included): def/kill completeness integrate vs reset; expression agreement with the constructor; aliasing and dominance rules",
+    text="Decides: every attribute written by anything reachable from integrate() is re-initialised by something reachable from reset() (named exemption: njev), "
+         "with the constructor's value or the saved initial step, the integrator is rebuilt without preserved state and the counter is zeroed before trimming; y0 "
+         "enters stored state only through a copy and library code never writes the constants dict; an early return for a call made at the target precedes every "
+         "state write. Bit-for-bit reproduction itself and 'within tolerance however the span is split' are not decided.")
+CLAIMS["C14"] = dict(
+    category="other", design="DESIGN.md 4/C14",
+    technique="unit (DIM) kind checking; exhaustive truth tables of the bisection predicate extracted by sequential symbolic evaluation; scalar/vector agreement of boolean functions",
+    text="Decides: in both Brent solvers no function value is ordered against an abscissa tolerance or a pure number other than zero (success is scale-free); the "
+         "safeguard 'interpolated point outside ((3a+b)/4, b) => bisect' is a tautology of the extracted predicate in both; the scalar and the vectorised solver "
+         "compute the same boolean function of the same arithmetic atoms and stop on the same tests; both loops are capped by a counter. Not decided: that the "
+         "returned point is within the tolerance of a sign change.")
+CLAIMS["C15"] = dict(
+    category="other", design="DESIGN.md 4/C15",
+    technique="truth tables over the atoms of the success expressions (sequential symbolic evaluation), atoms classified by quantity kind (residual vs step); slot-kind agreement of return sites; shape dataflow",
+    text="Decides: for hybrj, newtontrustregion and nonlinear_roots whether the value returned in the success slot can be true while every residual test (and the "
+         "external MINPACK flag) is false; that all return sites of nonlinear_roots put the residual norm in the slot the implicit integrator compares with its "
+         "tolerance; that the root is reshaped to the initial guess's shape on every return path. The step-size success tests of hybrj/newtontrustregion are "
+         "recorded known findings. Not decided: the 'modest multiple' constant.")
+CLAIMS["C16"] = dict(
+    category="other", design="DESIGN.md 4/C16",
+    technique="predicate abstraction of DiffRHS's Jacobian cache with exhaustive exploration of abstract states under all method sequences; cache-key discipline; argument agreement; index/layout rules",
+    text="Decides: over the abstraction (initialised, cached Jacobian kind, wrapped) and EVERY sequence of jac / hook / unhook / set_jac_base_order calls, jac() never "
+         "calls None, never calls the cached object with the other signature, and calls a hooked or attribute-supplied Jacobian when one is attached (witness "
+         "sequences are reported); each finite-difference closure evaluates at the time stored as its cache key and jac() rebuilds it when t differs; every wrapper "
+         "built in DiffRHS differentiates the counted self(t, y) with the same layout; the finite-difference estimate stores d/d input idx in column idx and reshapes "
+         "to (*out, *in). Not decided: accuracy of the estimate.")
+CLAIMS["C18"] = dict(
+    category="other", design="DESIGN.md 4/C18",
+    technique="keyword-to-source tables; def-use of args binding; axis rules; quantity-kind (direction) checking of the clipping callback and of t_eval handling",
+    text="Decides: OdeSystem(...) and OdeResult(...) are built field by field from solve_ivp's own arguments / the underlying system; args are bound to the "
+         "right-hand side's parameters after (t, y) in order; the time axis is last in both branches and the t_eval loop records the last sample after integrating to "
+         "each time; the max_step/min_step callback is registered exactly when a bound is given and clips the magnitude of the signed step; sorting and range test of "
+         "t_eval are direction-normalised. Not decided: agreement with SciPy.")
+CLAIMS["C19"] = dict(
+    category="other", design="DESIGN.md 4/C19",
+    technique="boundary evaluation of the linear index guard; owner rule for the raw buffers; quantity-kind (direction) checking of order-dependent searches; branch rules",
+    text="Decides: the integer guard raises IndexError exactly for index >= number of recorded steps (evaluated at counter-1, counter, counter+1) and reads go through "
+         "the trimmed views; __getitem__ never reads the raw buffers; every bisection over the history-ordered grid is direction-normalised and the nearest-sample "
+         "lookup is the direction-free argmin|t - q|; the dense branch is taken exactly when dense output is kept; len() is counter+1.")
+CLAIMS["C20"] = dict(
+    category="other", design="DESIGN.md 4/C20",
+    technique="who-may-call / who-may-write rules over all integrator and system modules; must-pass-through abstract interpretation of jac(); ordering rules for the callback loop",
+    text="Decides: the user's right-hand side is called only in DiffRHS.__call__ (every other evaluation, including finite-difference closures, goes through the "
+         "counting wrapper); nfev changes only by +1 after the user call returned and is zeroed only in the constructor and reset; every path of jac() to a return "
+         "passes exactly one njev increment; callbacks run in the given order, once per iteration at the top level of the loop, after the commit and the event "
+         "handling; nothing but the magnitude-preserving re-orientation touches dt between a callback and the next step; the recursive call for a terminal event "
+         "passes no callbacks.")
+
 PENDING = {}   # property -> reason it is not (yet) claimed
 
 
